@@ -113,6 +113,40 @@ template<class T> static void inv_one(const char* tn, int ifw, int ibk, int nfw,
 static int run_inverse(const char* file, uint64_t seed, int n){ FILE* f=fopen(file,"r"); if(!f) return 3; int a,b,nf,pa,pc,sq,lin,role[2];
   while(fscanf(f,"%%d %%d %%d %%d %%d %%d %%d %%d %%d",&a,&b,&nf,&pa,&pc,&sq,&lin,&role[0],&role[1])==9){ inv_one<float>("f",a,b,nf,pa,pc,sq,lin,role,seed,n); inv_one<double>("d",a,b,nf,pa,pc,sq,lin,role,seed,n); inv_one<long double>("l",a,b,nf,pa,pc,sq,lin,role,seed,n); } fclose(f); return 0; }
 
+// mono file line: id nargs c2num c2den neg deg2...   reference c * prod x^(deg/2) in __float128 (all-scalar monomial relations)
+#include <quadmath.h>
+template<class T> static void mono_one(const char* tn, int id, int nargs, long c2n, long c2d, int neg, const int* deg2, uint64_t seed, int n){
+  auto it = table<T>().find(id); if(it==table<T>().end()) return; std::mt19937_64 g(seed*2654435761ULL+id); std::uniform_real_distribution<double> U(1.0,2.0);
+  double worst=0; long cnt=0; int nonfinite=0; long double wit=0; bool sq=false; for(int a=0;a<nargs;a++) if(deg2[a]%%2) sq=true; __float128 c = sqrtq((__float128)c2n/(__float128)c2d); if(neg) c=-c;
+  int span = std::min(40, std::numeric_limits<T>::max_exponent/8);
+  for(int t=0;t<n;t++){ T x[96]={0}; __float128 ref=c; for(int a=0;a<nargs;a++){ x[a*9]=(T)std::ldexp(U(g),(int)(g()%%(unsigned)span)-span/2); ref *= powq((__float128)x[a*9], (__float128)deg2[a]/2); }
+    T o[16]; it->second(x,o); if(!std::isfinite((long double)o[0])){ nonfinite++; continue; } int e; frexpq(fabsq(ref),&e); double u=(double)(fabsq((__float128)o[0]-ref)/ldexpq((__float128)1,e-std::numeric_limits<T>::digits)); if(u>worst){ worst=u; wit=(long double)x[0]; } cnt++; }
+  printf("{\"e\":\"MonoReal\",\"id\":%%d,\"num\":\"%%s\",\"ulps\":%%ld,\"n\":%%ld,\"nonfinite\":%%d,\"sqrt\":%%d,\"witness\":\"%%La\"}\n", id, tn, worst>1e9? 1000000000L:(long)std::ceil(worst), cnt, nonfinite, (int)sq, wit);
+}
+static int run_mono(const char* file, uint64_t seed, int n){ FILE* f=fopen(file,"r"); if(!f) return 3; int id,nargs,neg; long c2n,c2d;
+  while(fscanf(f,"%%d %%d %%ld %%ld %%d",&id,&nargs,&c2n,&c2d,&neg)==5){ int deg2[9]; for(int a=0;a<nargs;a++) fscanf(f,"%%d",&deg2[a]);
+    mono_one<float>("f",id,nargs,c2n,c2d,neg,deg2,seed,n); mono_one<double>("d",id,nargs,c2n,c2d,neg,deg2,seed,n); mono_one<long double>("l",id,nargs,c2n,c2d,neg,deg2,seed,n); } fclose(f); return 0; }
+// tensor-valued definitions against their textbook formulas in __float128.  file line: id kind
+//  kind 1: symmetric part of a gradient (9 -> 6)   2: (beta dT / 3) I (1,1 -> 6)   3: von Mises (6 -> 1)   4: traction sigma.n (6,3 -> 3, n a direction)
+//  kind 5: -p I (1 -> 6)   6: planar traction sigma.n (6,2 -> 2)
+template<class T> static void tdef_one(const char* tn, int id, int kind, uint64_t seed, int n){
+  auto it = table<T>().find(id); if(it==table<T>().end()) return; std::mt19937_64 g(seed*40503+id); std::uniform_real_distribution<double> U(-1.0,1.0); typedef __float128 Q;
+  double worst=0; long cnt=0; int nonfinite=0;
+  for(int t=0;t<n;t++){ T x[96]={0}; int ex=(int)(g()%%41)-20; auto r=[&](){ T v=(T)std::ldexp(U(g),ex); if(sizeof(T)>8) v+= (T)std::ldexp((long double)(g()&1023), ex-70); return v==0? (T)1 : v; };
+    Q ref[9]; Q mag[9]; int nout=0;
+    if(kind==1){ for(int i=0;i<9;i++) x[i]=r(); auto A=[&](int i,int j){ return (Q)x[3*i+j]; }; int sl[6][2]={{0,0},{0,1},{0,2},{1,1},{1,2},{2,2}}; nout=6; for(int k=0;k<6;k++){ int i=sl[k][0], j=sl[k][1]; ref[k]=(A(i,j)+A(j,i))/2; mag[k]=(fabsq(A(i,j))+fabsq(A(j,i)))/2; } }
+    else if(kind==2){ x[0]=std::fabs(r()); x[9]=std::fabs(r()); Q v=(Q)x[0]*(Q)x[9]/3; nout=6; Q z[6]={v,0,0,v,0,v}; for(int k=0;k<6;k++){ ref[k]=z[k]; mag[k]=fabsq(v); } }
+    else if(kind==3){ for(int i=0;i<6;i++) x[i]=r(); Q s[6]; for(int i=0;i<6;i++) s[i]=x[i]; Q v=((s[0]-s[3])*(s[0]-s[3])+(s[3]-s[5])*(s[3]-s[5])+(s[5]-s[0])*(s[5]-s[0])+6*(s[1]*s[1]+s[2]*s[2]+s[4]*s[4]))/2; nout=1; ref[0]=sqrtq(v); Q m=0; for(int i=0;i<6;i++) m=fmaxq(m,fabsq(s[i])); mag[0]=fmaxq(ref[0], m); }
+    else if(kind==4 || kind==6){ for(int i=0;i<6;i++) x[i]=r(); int nd = kind==4? 3:2; T d[3]={0,0,0}; Q l2=0; for(int i=0;i<nd;i++){ d[i]=(T)U(g); l2+=(Q)d[i]*d[i]; } if(l2==0){ d[0]=1; l2=1; }
+      for(int i=0;i<nd;i++) x[9+i]=d[i];   // the harness normalises: the unit vector the library sees is d/|d| rounded to T; use the exact normalised one with a looser budget
+      Q nn[3]={0,0,0}; Q ln=sqrtq(l2); for(int i=0;i<nd;i++) nn[i]=(Q)d[i]/ln; Q S[3][3]={{(Q)x[0],(Q)x[1],(Q)x[2]},{(Q)x[1],(Q)x[3],(Q)x[4]},{(Q)x[2],(Q)x[4],(Q)x[5]}}; nout=nd; for(int i=0;i<nd;i++){ ref[i]=0; mag[i]=0; for(int j=0;j<3;j++){ ref[i]+=S[i][j]*nn[j]; mag[i]+=fabsq(S[i][j]*nn[j]); } } }
+    else if(kind==5){ x[0]=r(); nout=6; Q z[6]={-(Q)x[0],0,0,-(Q)x[0],0,-(Q)x[0]}; for(int k=0;k<6;k++){ ref[k]=z[k]; mag[k]=fabsq((Q)x[0]); } }
+    T o[16]; int no=it->second(x,o); if(no!=nout){ worst=1e18; continue; }
+    for(int k=0;k<nout;k++){ if(!std::isfinite((long double)o[k])){ nonfinite++; continue; } Q sc=mag[k]; if(sc==0){ if(o[k]!=0) worst=1e18; continue; } int e; frexpq(sc,&e); double u=(double)(fabsq((Q)o[k]-ref[k])/ldexpq((Q)1,e-std::numeric_limits<T>::digits)); if(u>worst) worst=u; } cnt++; }
+  printf("{\"e\":\"TensorDefReal\",\"id\":%%d,\"kind\":%%d,\"num\":\"%%s\",\"ulps\":%%ld,\"n\":%%ld,\"nonfinite\":%%d}\n", id, kind, tn, worst>1e9? 1000000000L:(long)std::ceil(worst), cnt, nonfinite);
+}
+static int run_tdef(const char* file, uint64_t seed, int n){ FILE* f=fopen(file,"r"); if(!f) return 3; int id,kind; while(fscanf(f,"%%d %%d",&id,&kind)==2){ tdef_one<float>("f",id,kind,seed,n); tdef_one<double>("d",id,kind,seed,n); tdef_one<long double>("l",id,kind,seed,n); } fclose(f); return 0; }
+
 int main(int argc, char** argv){
 %(regs)s
   std::string mode = argc>1? argv[1] : "eval";
@@ -120,6 +154,8 @@ int main(int argc, char** argv){
   if(mode=="equiv") return run_equiv(argv[2], strtoull(argv[3],0,10), atoi(argv[4]));
   if(mode=="twin") return run_twin(argv[2], strtoull(argv[3],0,10), atoi(argv[4]));
   if(mode=="inverse") return run_inverse(argv[2], strtoull(argv[3],0,10), atoi(argv[4]));
+  if(mode=="mono") return run_mono(argv[2], strtoull(argv[3],0,10), atoi(argv[4]));
+  if(mode=="tdef") return run_tdef(argv[2], strtoull(argv[3],0,10), atoi(argv[4]));
   setvbuf(stdout, NULL, _IOLBF, 0);
   char line[8192];
   while(fgets(line,sizeof line,stdin)){
